@@ -525,6 +525,38 @@ pub fn c14(log: &mut Log, seed: u64, tier: &str) {
             drop(s);
             log.ev(json!({"ev": "Mem", "what": "stream", "scenario": "stream", "n": n, "k": 1, "maxKeyLen": KEYLEN, "peak": jn(peak), "allocs": jn(allocs), "items": items}));
         }
+        // the key-only and value-only enumerations of a map, and a set's stream
+        {
+            let m = fst::Map::new(&bytes[..]).unwrap();
+            let snap = alloc::begin();
+            let mut s = m.values();
+            let mut items = 0usize;
+            while let Some(_) = s.next() {
+                items += 1;
+            }
+            let (_, peak, allocs) = alloc::read(&snap);
+            drop(s);
+            log.ev(json!({"ev": "Mem", "what": "stream", "scenario": "values", "n": n, "k": 1, "maxKeyLen": KEYLEN, "peak": jn(peak), "allocs": jn(allocs), "items": items}));
+            let snap = alloc::begin();
+            let mut s = m.keys();
+            let mut items = 0usize;
+            while let Some(_) = s.next() {
+                items += 1;
+            }
+            let (_, peak, allocs) = alloc::read(&snap);
+            drop(s);
+            log.ev(json!({"ev": "Mem", "what": "stream", "scenario": "keys", "n": n, "k": 1, "maxKeyLen": KEYLEN, "peak": jn(peak), "allocs": jn(allocs), "items": items}));
+            let set = fst::Set::new(&bytes[..]).unwrap();
+            let snap = alloc::begin();
+            let mut s = set.stream();
+            let mut items = 0usize;
+            while let Some(_) = s.next() {
+                items += 1;
+            }
+            let (_, peak, allocs) = alloc::read(&snap);
+            drop(s);
+            log.ev(json!({"ev": "Mem", "what": "stream", "scenario": "set-stream", "n": n, "k": 1, "maxKeyLen": KEYLEN, "peak": jn(peak), "allocs": jn(allocs), "items": items}));
+        }
         // range scan
         {
             let lo = probe_keys[probe_keys.len() / 10].clone();
